@@ -304,6 +304,13 @@ class C10(Check):
         ofcs = [self.OFConnection(w) for w in workers]
         ofcs[0].unpackers = [wrap(u) for u in ofcs[0].unpackers]
         ofcs[0].set_message_handler(deliver)
+        skips = []                                        # (reason, xid of the offending message) per skipped/refused message
+        real_eh = ofcs[0]._error_handler
+        def eh(reason, info):
+            head = bytes(workers[0].receive_buf[:8])
+            skips.append([int(reason), int.from_bytes(head[4:8], "big") if len(head) >= 8 else 0])
+            return real_eh(reason, info)
+        ofcs[0]._error_handler = eh
         sib_del = [[], []]
         for k in (1, 2):
             ofcs[k].set_message_handler(lambda c, m, k=k: sib_del[k - 1].append(bytes(m.pack()).hex()))
@@ -338,9 +345,17 @@ class C10(Check):
             for m in sib_msgs[k - 1][len(chunks):]: feed(k, m)
         if state["spin"]: self.spins += 1
         st = "spin" if state["spin"] else ("closed" if (workers[0].closed or workers[0]._shutdown_send) else "alive")
+        errs, sent, p = [], socks[0].sent + bytes(workers[0].send_buf), 0
+        while p + 12 <= len(sent):                        # error replies the offender was sent: (type, code, xid)
+            ln = (sent[p + 2] << 8) | sent[p + 3]
+            if ln < 8: break
+            if sent[p + 1] == 1:
+                errs.append([(sent[p + 8] << 8) | sent[p + 9], (sent[p + 10] << 8) | sent[p + 11], int.from_bytes(sent[p + 4:p + 8], "big")])
+            p += ln
         return {"delivered": delivered, "counts": counts, "buf": bytes(workers[0].receive_buf).hex() if st == "alive" else None, "status": st,
                 "sib_status": ["closed" if (workers[k].closed or workers[k]._shutdown_send) else "alive" for k in (1, 2)], "sib_delivered": sib_del, "loop_alive": alive[0],
-                "table": list(table.values()), "splice": self._splice(objs), "chunks": [c.hex() for c in chunks], "replies": len(socks[0].sent)}
+                "table": list(table.values()), "splice": self._splice(objs), "chunks": [c.hex() for c in chunks], "replies": len(socks[0].sent),
+                "skips": skips, "errors": errs}
 
     def _splice(self, objs):
         """does any delivered object depend on bytes outside its declared-length window?"""
@@ -387,6 +402,15 @@ class C10(Check):
         pre = case["pre"]
         if obs["delivered"][:len(pre)] != pre: return side + ": valid messages before the malformed bytes were not delivered"
         if obs["splice"]: return side + ": " + obs["splice"]
+        if side == "sw":
+            # "either the bytes are answered with an error and skipped or that one connection is closed":
+            # every message the switch skipped (no decoder for its type: reason 2; undecodable / wrong length: reason 3)
+            # must have been answered with OFPET_BAD_REQUEST and the matching code, carrying the message's xid
+            want = [[1, {2: 1, 3: 6}[r], x] for r, x in obs.get("skips", []) if r in (2, 3)]
+            got = [e for e in obs.get("errors", []) if e[0] == 1 and e[1] in (1, 6)]
+            silent = [r for r, x in obs.get("skips", []) if r not in (1, 2, 3)]
+            if silent and obs["status"] == "alive": return "sw: message skipped without an error reply (handler reason %d)" % silent[0]
+            if want != got: return "sw: skipped messages %s but error replies %s" % (want[:3], got[:3])
         return None
 
     def finding_key(self, case, obs, failure):
